@@ -165,6 +165,12 @@ func GenGraph(rt *rapid.T, acyclic bool) *Graph {
 	if !acyclic && n2 > 0 && rapid.Bool().Draw(rt, "hasPA") {
 		sharedPA = &[3]*G1{pick1(-1, "pa0"), pick1(-1, "pa1"), pick1(-1, "pa2")}
 	}
+	// one backing array of which several G2 nodes hold views of different lengths, each behind its own pointer:
+	// distinct lists that start at the same address
+	var viewBase []*G1
+	if !acyclic && n2 > 1 && rapid.Bool().Draw(rt, "hasViews") {
+		viewBase = []*G1{pick1(-1, "v0"), pick1(-1, "v1"), pick1(-1, "v2")}
+	}
 	for i, y := range g2 {
 		// G2 -> G1 edges close cycles; in acyclic mode G2 nodes are leaves towards G1
 		if !acyclic {
@@ -172,7 +178,10 @@ func GenGraph(rt *rapid.T, acyclic bool) *Graph {
 				y.PA = sharedPA
 			}
 			y.Back = pick1(-1, "back")
-			if rapid.Bool().Draw(rt, "hasL") {
+			if viewBase != nil && rapid.IntRange(0, 2).Draw(rt, "useView") > 0 {
+				view := viewBase[:rapid.IntRange(1, 3).Draw(rt, "viewLen")]
+				y.L = &view
+			} else if rapid.Bool().Draw(rt, "hasL") {
 				l := []*G1{pick1(-1, "l0"), pick1(-1, "l1")}
 				y.L = &l
 			}
